@@ -8,6 +8,8 @@ the obligation `translate:c17_navshape` is broken and the correspondence run loo
   getPreviousNode (level any)   : no DOCUMENT_NODE special case; `from` tested on `next` outside the `if (0 == next)` branch;
                                   the whole test is guarded by `0 != next`
   getMatchingAncestors          : `from` is tested only on nodes other than the context node, for single and multiple alike
+  getCountString (level any)    : whether formatNumberList is guarded by `if (theNumber != 0)` -> `anyZeroPrintsNothing`
+                                  (the model and the theorems are stated for both answers)
 """
 import os
 import re
@@ -24,10 +26,11 @@ def die(msg):
     sys.exit(1)
 
 
-def body(txt, name):
-    m = re.search(r"\nElemNumber::%s\s*\(" % name, txt)
-    if not m:
+def body(txt, name, second=False):
+    ms = list(re.finditer(r"\nElemNumber::%s\s*\(" % name, txt))
+    if not ms or (second and len(ms) < 2):
         die("function %s not found" % name)
+    m = ms[1] if second else ms[0]
     b = txt.index("{", m.end())
     depth = 0
     for i in range(b, len(txt)):
@@ -55,21 +58,52 @@ def main():
     if "DOCUMENT_NODE" in gp:
         die("getPreviousNode: a DOCUMENT_NODE special case is present (the model has none)")
     facts.append("getPreviousNode_no_document_special_case")
-    m = re.search(r"if\(0 == next\) \{ next = pos->getParentNode\(\); \} else \{.*?\} if\(0 != next && 0 != fromMatchPattern && "
+    m = re.search(r"if\(0 == next\) \{ next = (?:pos->getParentNode\(\)|DOMServices::getParentOfNode\(\*pos\)); \} else \{.*?\} if\(0 != next && 0 != fromMatchPattern && "
                   r"fromMatchPattern->getMatchScore\( next, \*this, executionContext\) != XPath::eMatchScoreNone\) \{ pos = 0; break; \} pos = next;", gp)
     if not m:
         die("getPreviousNode (level any): the walk is not `next = parent | dive; if (0 != next && from && from matches next) stop; pos = next`")
     facts.append("getPreviousNode_from_tested_on_every_next")
+    dom_parent = "next = pos->getParentNode();" in gp
+    if not dom_parent and "next = DOMServices::getParentOfNode(*pos);" not in gp:
+        die("getPreviousNode (level any): neither pos->getParentNode() nor DOMServices::getParentOfNode(*pos) is used for the parent step")
     if not re.search(r"if \(0 != m_fromMatchPattern && node != theContextNode && m_fromMatchPattern->getMatchScore\( node, \*this, "
                      r"executionContext\) != XPath::eMatchScoreNone\) \{ break; \}", ga):
         die("getMatchingAncestors: `from` is not tested as `0 != from && node != theContextNode && matches -> break`")
     if "stopAtFirstFound" not in ga or re.search(r"if\s*\(\s*!\s*stopAtFirstFound\s*\)", ga):
         die("getMatchingAncestors: `from` handling depends on stopAtFirstFound")
     facts.append("getMatchingAncestors_from_skips_context_both_levels")
+    # getCountString, level any: is a zero count printed?  (`if (theNumber != 0)` around formatNumberList = not printed)
+    gc = flat(body(src, "getCountString", second=True))
+    m = re.search(r"if \(eAny == m_level\) \{(.*?)\} else \{", gc)
+    if not m or "ctable.countNode(executionContext, *this, sourceNode)" not in m.group(1) or "formatNumberList(" not in m.group(1):
+        die("getCountString: the level=any branch (countNode + formatNumberList) was not found")
+    zero_nothing = bool(re.search(r"if \(theNumber != 0\) \{ formatNumberList\(", m.group(1)))
+    if not zero_nothing and "theNumber != 0" in m.group(1):
+        die("getCountString: unrecognised use of `theNumber != 0` in the level=any branch")
+    # getCountString, value= path: which values bypass formatting (NumberToDOMString), and is a value that CountType cannot
+    # hold among them?
+    mv = re.search(r"if \(0 != m_valueExpr\) \{(.*?)\} else \{ const CountType theNumber = CountType\(DoubleSupport::round\(theValue\)\);", gc)
+    if not mv:
+        die("getCountString: the value= branch was not found")
+    cond = mv.group(1)
+    for need in ("DoubleSupport::isNaN(theValue) == true", "DoubleSupport::isPositiveInfinity(theValue) == true",
+                 "DoubleSupport::isNegativeInfinity(theValue) == true", "DoubleSupport::lessThan(theValue, 0.5) == true",
+                 "NumberToDOMString(theValue, theResult);"):
+        if need not in cond:
+            die("getCountString value= branch: `%s` not found" % need)
+    guard64 = "theValue >= static_cast<double>(std::numeric_limits<CountType>::max())" in cond
+    if not guard64 and "numeric_limits" in cond:
+        die("getCountString value= branch: unrecognised range guard")
     out = ["/- GENERATED by translate/c17_navshape.py from src/xalanc/XSLT/ElemNumber.cpp — do not edit -/",
            "namespace XalanModel.Generated.C17", "",
            "/-- structural facts of the navigation code found in the current source (the transcription in `C17/Navigate.lean` relies on them) -/",
            "def navShapeFacts : List String := [" + ", ".join('"%s"' % f for f in facts) + "]", "",
+           "/-- `getCountString`, level any: `formatNumberList` is guarded by `if (theNumber != 0)` — a zero count prints nothing -/",
+           "def anyZeroPrintsNothing : Bool := %s" % ("true" if zero_nothing else "false"), "",
+           "/-- `getPreviousNode` (level any) steps to the parent with `pos->getParentNode()`, which is null for an attribute node (`DOMServices::getParentOfNode` gives the element) -/",
+           "def anyWalkUsesDomParent : Bool := %s" % ("true" if dom_parent else "false"), "",
+           "/-- `getCountString`, `value=`: a value that `CountType` cannot hold is output by `NumberToDOMString` instead of being cast -/",
+           "def valueRangeGuard : Bool := %s" % ("true" if guard64 else "false"), "",
            "end XalanModel.Generated.C17", ""]
     new = "\n".join(out)
     os.makedirs(os.path.dirname(OUT), exist_ok=True)
